@@ -705,7 +705,9 @@ class Prop:
                 b, _ = ctx.run_impl(exe, Case("acceptor", ls, meta={"argv": [be]}), timeout=60)
                 f = acceptor_oracle(ls, b)
                 return bool(f) and f[0][0] == kind
-            small = ddmin(lines, still, keep_prefix=0, budget=100) if origin != "replay" else lines
+            # keep `config` / `listen`: an acceptor that is destroyed without ever listening is another story
+            keep = 2 if len(lines) > 1 and lines[1] == "listen" else (1 if lines and lines[0] == "listen" else 0)
+            small = ddmin(lines, still, keep_prefix=keep, budget=100) if origin != "replay" else lines
             bs, _ = ctx.run_impl(exe, Case("acceptor", small, meta={"argv": [be]}), timeout=60)
             f2 = [f for f in acceptor_oracle(small, bs) if f[0] == kind] or fails
             ctx.oracle_failures.append((Case("acceptor", [head] + small, origin), kind, f2[0][1] + " [acceptor/%s/%s]" % (flavour, be)))
